@@ -87,7 +87,9 @@ def step (s : St) (line : String) : IO St := do
     let d := (kvGet ws "live_delta").toInt?.getD 1
     let lk := kvGet ws "leak"
     let me := kvGet ws "memerr"
-    let j := if me != "" then s!"FAIL:memory-corruption:{me}"
+    let qc := kvGet ws "qcrash"
+    let j := if qc != "" then s!"FAIL:assertion-or-crash:Query-new:{qc}"
+      else if me != "" then s!"FAIL:memory-corruption:{me}"
       else if judgeBalance d && lk == "" then "ok"
       else if lk != "" then s!"FAIL:allocator-balance:detail:{lk}"
       else s!"FAIL:allocator-balance:{d}"
